@@ -1,6 +1,10 @@
 package interp
 
 import (
+	"fmt"
+	"os"
+	"strings"
+
 	"golang.org/x/tools/go/ssa"
 )
 
@@ -50,4 +54,49 @@ func sortSlice(fr *frame, a []value) value {
 func init() {
 	externals["sort.Slice"] = sortSlice
 	externals["sort.SliceStable"] = sortSlice
+}
+
+// verbsOf returns the verb letter consumed by each operand of a format.
+func verbsOf(format string) []byte {
+	var out []byte
+	for k := 0; k < len(format); k++ {
+		if format[k] != '%' {
+			continue
+		}
+		j := k + 1
+		for j < len(format) && strings.IndexByte("+-# 0123456789.", format[j]) >= 0 {
+			j++
+		}
+		if j >= len(format) {
+			break
+		}
+		if format[j] != '%' {
+			out = append(out, format[j])
+		}
+		k = j
+	}
+	return out
+}
+
+var debugLog = os.Getenv("VERIF_DEBUG_LOG") != ""
+
+// logNop stands for the repo's log.Debug / Info / Error (M-LOGGER: no-ops);
+// with VERIF_DEBUG_LOG set the operands are printed for debugging harnesses.
+func logNop(fr *frame, a []value) value {
+	if debugLog && len(a) > 0 {
+		if l, ok := a[0].([]value); ok {
+			var sb strings.Builder
+			for _, x := range l {
+				if e, ok := x.(iface); ok {
+					if ss, ok := e.v.(symstr); ok {
+						fmt.Fprintf(&sb, " <symstr len %d>", len(ss.b))
+						continue
+					}
+					fmt.Fprintf(&sb, " %q", fmt.Sprint(e.v))
+				}
+			}
+			fmt.Fprintln(os.Stderr, "log:", sb.String())
+		}
+	}
+	return nil
 }
